@@ -10,8 +10,6 @@ try:
     files = {}
     for i in range(0, len(args), 3):
         f, old, new = args[i], args[i+1], args[i+2]
-        old = old.encode().decode('unicode_escape') if '\\n' in old or '\\t' in old else old
-        new = new.encode().decode('unicode_escape') if '\\n' in new or '\\t' in new else new
         s = files.get(f) or open('/repo/' + f).read()
         if old not in s:
             sys.exit('old text not found in %s: %r' % (f, old[:60]))
